@@ -349,6 +349,18 @@ def F20():
         return 'complete stack, AcquisitionTime missing in one file: to_nifti LAS/LAI/"" -> %s' % out
 
 
+def F21():
+    st = dcmstack.DicomStack()
+    a = _mk_ds(ipp=(0., 0., 1.), inst=1)                       # sorts first (normal is -z), no rescale, BitsStored 12
+    b = _mk_ds(ipp=(0., 0., 0.), inst=2, extra={'RescaleSlope': 0.5, 'RescaleIntercept': 0.25})
+    st.add_dcm(a); st.add_dcm(b)
+    data = st.get_data()
+    want = (np.arange(4, dtype=np.uint16) + 2) * 0.5 + 0.25
+    got = np.sort(data[:, :, 1].ravel().astype(float))
+    if not np.array_equal(got, np.sort(want)):
+        return 'per-file rescale: values of the rescaled file %s come out as %s (dtype %s)' % (list(want), list(got), data.dtype)
+
+
 # ---- open findings (recorded in known-findings.txt, not repaired): these report PRESENT on the current tree
 def N1():
     e = DcmMetaExtension.make_empty((2, 2, 2, 1), np.eye(4), None, 2)
@@ -449,7 +461,7 @@ def deepcopy_ext(e):
 
 
 OPEN = ['N1', 'N2', 'N3', 'N4', 'N6', 'N8', 'N9', 'N11']
-ALL = ['F20', 'F19', 'F18', 'F17', 'F16', 'F15', 'F1', 'F2', 'F3', 'F4', 'F5', 'F6', 'F7', 'F8', 'F9', 'F10', 'F11', 'F12', 'F13', 'F14']
+ALL = ['F21', 'F20', 'F19', 'F18', 'F17', 'F16', 'F15', 'F1', 'F2', 'F3', 'F4', 'F5', 'F6', 'F7', 'F8', 'F9', 'F10', 'F11', 'F12', 'F13', 'F14']
 
 if __name__ == '__main__':
     which = sys.argv[1:] or ALL
